@@ -50,9 +50,12 @@ func isOriginAllowed(origin string, allowOrigins []string) (string, bool) {
 				return origin, true
 			}
 
-			if strings.Contains(allowedURL.Host, "*") {
-				pattern := strings.ReplaceAll(allowedURL.Host, "*.", "(.*\\.)?")
-				pattern = strings.ReplaceAll(pattern, "*", ".*")
+			// wildcards apply to the host only: the scheme must be the same (the port is part of Host),
+			// and every character other than '*' must match literally.
+			if allowedURL.Scheme == originURL.Scheme && strings.Contains(allowedURL.Host, "*") {
+				pattern := regexp.QuoteMeta(allowedURL.Host)
+				pattern = strings.ReplaceAll(pattern, "\\*\\.", "(.*\\.)?")
+				pattern = strings.ReplaceAll(pattern, "\\*", ".*")
 				matched, errMatched := regexp.MatchString("^"+pattern+"$", originURL.Host)
 				if errMatched == nil && matched {
 					return origin, true
